@@ -415,31 +415,82 @@ def backward_assembly(ctx, ev, s, sid, rec, construct, loc, n_out, T_term, rule=
         ctx.ok(rule, construct, "backward pass over T−2…0 behind T>1; outputs re-ordered into time order before being written to rows [:-1]")
 
 
+def select3(t):
+    """(cond, a, b) of jax.lax.select / jnp.where, else None."""
+    if is_call(t) and t[1][0] == "name" and t[1][1] in ("jax.lax.select", "jax.numpy.where") and len(t[2]) == 3:
+        return t[2]
+    return None
+
+
+def addressed_sites(s, ev):
+    """{address: distribution-call term} for every `dist(args) @ "addr"` evaluated in the function (return value and expression statements)."""
+    out = {}
+    pool = [s.ret] + [e[2] for e in s.events if e[1] == "expr"]
+    for t in pool:
+        for x in subterms(t):
+            if x[0] == "binop" and x[1] == "@" and x[3][0] == "const" and isinstance(x[3][1], str) and is_call(x[2]):
+                out[x[3][1]] = x[2]
+    return out
+
+
 def linear_gaussian_model_rule(ctx, rule="ROLE-step-model"):
-    kind, node, mod, owner = ctx.p.get_function(SS + "_linear_gaussian")
-    ctx.fn(SS + "_linear_gaussian")
-    src = {ast.unparse(st.targets[0]): ast.unparse(st.value) for st in node.body if isinstance(st, ast.Assign) and len(st.targets) == 1}
-    exprs = [ast.unparse(st.value) for st in node.body if isinstance(st, ast.Expr)]
-    ret = [ast.unparse(st.value) for st in node.body if isinstance(st, ast.Return)]
-    want = {"is_initial": "time_index == 0", "transition_mean": "A @ prev_state", "current_mean": "jax.lax.select(is_initial, initial_mean, transition_mean)",
-            "current_cov": "jax.lax.select(is_initial, initial_cov, Q)", "current_state": "multivariate_normal(current_mean, current_cov) @ 'state'", "obs_mean": "C @ current_state"}
-    bad = {k: src.get(k) for k, v in want.items() if src.get(k) != v}
-    if bad or "multivariate_normal(obs_mean, R) @ 'obs'" not in exprs or ret != ["(current_state, time_index + 1, initial_mean, initial_cov, A, Q, C, R)"]:
-        ctx.bad(rule, "state_space.linear_gaussian", f"step model {sorted(bad)}", f"x_0 ~ N(m0, P0); x_t ~ N(A x_(t-1), Q); y_t ~ N(C x_t, R): found {bad or exprs or ret}", ctx.loc(mod, node))
+    ev = mk_ev(ctx)
+    dotted = SS + "_linear_gaussian"
+    s = summarize(ctx, ev, dotted)
+    loc = func_loc(ctx, dotted)
+    PS, TI, M0, P0, A, Q, Cm, R = (P(n) for n in ("prev_state", "time_index", "initial_mean", "initial_cov", "A", "Q", "C", "R"))
+    sites = addressed_sites(s, ev)
+    problems = []
+    is0 = ("cmp", "==", TI, C(0))
+    st = sites.get("state")
+    if st is None or st[1] != N("genjax.distributions.multivariate_normal") or len(st[2]) != 2:
+        problems.append(f"state ~ multivariate_normal(mean, cov) @ 'state' (found {short(st, ev, 120) if st else None})")
     else:
-        ctx.ok(rule, "state_space.linear_gaussian")
-    kind, node, mod, owner = ctx.p.get_function(SS + "_discrete_hmm")
-    ctx.fn(SS + "_discrete_hmm")
-    src = {ast.unparse(st.targets[0]): ast.unparse(st.value) for st in node.body if isinstance(st, ast.Assign) and len(st.targets) == 1}
-    exprs = [ast.unparse(st.value) for st in node.body if isinstance(st, ast.Expr)]
-    ret = [ast.unparse(st.value) for st in node.body if isinstance(st, ast.Return)]
-    want = {"is_initial": "time_index == 0", "initial_logits": "jnp.log(initial_probs)", "transition_logits": "jnp.log(transition_matrix[prev_state])",
-            "current_logits": "jax.lax.select(is_initial, initial_logits, transition_logits)", "current_state": "categorical(current_logits) @ 'state'"}
-    bad = {k: src.get(k) for k, v in want.items() if src.get(k) != v}
-    if bad or "categorical(jnp.log(emission_matrix[current_state])) @ 'obs'" not in exprs or ret != ["(current_state, time_index + 1, initial_probs, transition_matrix, emission_matrix)"]:
-        ctx.bad(rule, "state_space.discrete_hmm", f"step model {sorted(bad)}", f"x_0 ~ Cat(pi); x_t ~ Cat(T[x_(t-1), :]); y_t ~ Cat(E[x_t, :]): found {bad or exprs or ret}", ctx.loc(mod, node))
+        m, c = select3(st[2][0]), select3(st[2][1])
+        if m is None or m[0] != is0 or m[1] != M0 or m[2] != mm(A, PS):
+            problems.append(f"state mean = initial_mean at t=0 else A @ prev_state (found {short(st[2][0], ev, 160)})")
+        if c is None or c[0] != is0 or c[1] != P0 or c[2] != Q:
+            problems.append(f"state covariance = initial_cov at t=0 else Q (found {short(st[2][1], ev, 160)})")
+    ob = sites.get("obs")
+    state_term = ("binop", "@", st, C("state")) if st else None
+    if ob is None or ob[1] != N("genjax.distributions.multivariate_normal") or len(ob[2]) != 2 or ob[2][0] != mm(Cm, state_term) or ob[2][1] != R:
+        problems.append(f"obs ~ multivariate_normal(C @ state, R) @ 'obs' (found {short(ob, ev, 200) if ob else None})")
+    ret = items(s.ret)
+    want_ret = [state_term, ("binop", "+", TI, C(1)), M0, P0, A, Q, Cm, R]
+    if ret is None or ret != want_ret:
+        problems.append("returns (state, time_index + 1, and all parameters unchanged) so the kernel can be iterated")
+    if problems:
+        for p in problems:
+            ctx.bad(rule, "state_space.linear_gaussian", p, p, loc)
     else:
-        ctx.ok(rule, "state_space.discrete_hmm")
+        ctx.ok(rule, "state_space.linear_gaussian", "x_0 ~ N(m0, P0); x_t ~ N(A x, Q); y_t ~ N(C x_t, R)")
+    ev = mk_ev(ctx)
+    dotted = SS + "_discrete_hmm"
+    s = summarize(ctx, ev, dotted)
+    loc = func_loc(ctx, dotted)
+    PS, TI, PI, TM, EM = (P(n) for n in ("prev_state", "time_index", "initial_probs", "transition_matrix", "emission_matrix"))
+    sites = addressed_sites(s, ev)
+    problems = []
+    lg = lambda x: call(N("jax.numpy.log"), x)
+    st = sites.get("state")
+    if st is None or st[1] != N("genjax.distributions.categorical") or len(st[2]) != 1:
+        problems.append(f"state ~ categorical(logits) @ 'state' (found {short(st, ev, 120) if st else None})")
+    else:
+        m = select3(st[2][0])
+        if m is None or m[0] != ("cmp", "==", TI, C(0)) or m[1] != lg(PI) or m[2] != lg(("idx", TM, PS)):
+            problems.append(f"state logits = log pi at t=0 else log T[prev_state] (row of the previous state) (found {short(st[2][0], ev, 200)})")
+    ob = sites.get("obs")
+    state_term = ("binop", "@", st, C("state")) if st else None
+    if ob is None or ob[1] != N("genjax.distributions.categorical") or ob[2] != (lg(("idx", EM, state_term)),):
+        problems.append(f"obs ~ categorical(log E[state]) @ 'obs' (found {short(ob, ev, 200) if ob else None})")
+    ret = items(s.ret)
+    if ret is None or ret != [state_term, ("binop", "+", TI, C(1)), PI, TM, EM]:
+        problems.append("returns (state, time_index + 1, and all parameters unchanged) so the kernel can be iterated")
+    if problems:
+        for p in problems:
+            ctx.bad(rule, "state_space.discrete_hmm", p, p, loc)
+    else:
+        ctx.ok(rule, "state_space.discrete_hmm", "x_0 ~ Cat(pi); x_t ~ Cat(T[x_(t-1), :]); y_t ~ Cat(E[x_t, :])")
 
 
 # ====================================================================== HMM axis roles
@@ -624,18 +675,41 @@ def hmm_rules(ctx, rule="ROLE-hmm-axes"):
         ctx.ok(rule, construct, "x_T ~ alpha[-1]; x_t ~ alpha[t] + log T[:, x_t+1]")
     backward_assembly(ctx, ev, s_tuple(s), sid, rec, construct, loc, n_out=1, T_term=("idx", ("attr", AL, "shape"), C(0)))
     # ---------- sequence log prob
-    kind, node, mod, owner = ctx.p.get_function(SS + "compute_sequence_log_prob")
-    ctx.fn(SS + "compute_sequence_log_prob")
-    src = ast.unparse(node)
-    need = ["log_prob = jnp.log(initial_probs[states[0]])", "log_prob += jnp.log(emission_matrix[states[0], observations[0]])",
-            "transition_log_prob = jnp.log(transition_matrix[states[t - 1], states[t]])", "emission_log_prob = jnp.log(emission_matrix[states[t], observations[t]])",
-            "new_log_prob = carry_log_prob + transition_log_prob + emission_log_prob", "time_indices = jnp.arange(1, T)",
-            "jax.lax.scan(scan_step, log_prob, time_indices)"]
-    miss = [n for n in need if n not in src]
-    if miss:
-        ctx.bad(rule, "state_space.compute_sequence_log_prob", f"joint log-probability terms {miss[:2]}", f"log pi[x_0] + log E[x_0,y_0] + sum_t log T[x_(t-1), x_t] + log E[x_t, y_t]: missing {miss}", ctx.loc(mod, node))
+    from .util import mk_lin
+    ev = mk_ev(ctx)
+    dotted = SS + "compute_sequence_log_prob"
+    s = summarize(ctx, ev, dotted)
+    loc = func_loc(ctx, dotted)
+    construct = "state_space.compute_sequence_log_prob"
+    lin = mk_lin(ev)
+    ST, OBS, PI, TM, EM = P("states"), P("observations"), P("initial_probs"), P("transition_matrix"), P("emission_matrix")
+    scans = list(ev.scans.items())
+    if len(scans) != 1:
+        raise AnalysisError("compute_sequence_log_prob: expected one scan")
+    sid, rec = scans[0]
+    lg = lambda x: call(N("jax.numpy.log"), x)
+    ix = lambda a, *i: ("idx", a, i[0] if len(i) == 1 else ("tuple", tuple(i)))
+    t = ("elem", sid, rec["xs"])
+    s0, y0 = ix(ST, C(0)), ix(OBS, C(0))
+    want_init = ("binop", "+", lg(ix(PI, s0)), lg(ix(EM, s0, y0)))
+    st_, sp = ix(ST, t), ix(ST, ("binop", "-", t, C(1)))
+    want_step = ("binop", "+", ("binop", "+", ("scan_carry", sid, None), lg(ix(TM, sp, st_))), lg(ix(EM, st_, ix(OBS, t))))
+    problems = []
+    ok, res = lin.equal(rec["init"], want_init)
+    if not ok:
+        problems.append(f"initial term = log pi[x_0] + log E[x_0, y_0] (found {short(rec['init'], ev, 200)})")
+    ok, res = lin.equal(rec["carry_out"], want_step)
+    if not ok:
+        problems.append(f"step adds log T[x_(t-1), x_t] + log E[x_t, y_t] (from-state first) (found {short(rec['carry_out'], ev, 260)})")
+    if not (is_call(rec["xs"], name="jax.numpy.arange") and len(rec["xs"][2]) == 2 and rec["xs"][2][0] == C(1)):
+        problems.append(f"time index runs over arange(1, T) (found {short(rec['xs'], ev)})")
+    if s.ret != ("scan_final", sid):
+        problems.append(f"returns the accumulated log-probability (found {short(s.ret, ev, 120)})")
+    if problems:
+        for p in problems:
+            ctx.bad(rule, construct, p, p, loc)
     else:
-        ctx.ok(rule, "state_space.compute_sequence_log_prob")
+        ctx.ok(rule, construct)
 
 
 class _S:
